@@ -127,6 +127,19 @@ std::string vf_run(const Case &c, vf::Ctx &ctx) {
         }
       }
     }
+    // destinations that do not start on a 4-byte boundary (a field of a packed record, a buffer behind a one-byte header):
+    // the layout is relative to the start of the message; capacities around the exact fit, guard bytes in front, the end of
+    // the heap block right behind the capacity
+    for (size_t off = 1; off <= 3; off++)
+      for (size_t cap : {need > 2 ? need - 2 : (size_t)0, need, need + 1, need + 3}) {
+        std::unique_ptr<char[]> hb(new char[off + cap]);
+        memset(hb.get(), 0xAA, off + cap);
+        char *buf = hb.get() + off;
+        size_t r = rtosc_amessage(buf, cap, c.m.address.c_str(), c.m.tags.c_str(), args);
+        ncalls++;
+        if (!(e = sweep_check("rtosc_amessage (destination not 4-byte aligned)", cap, need, r, buf, ref)).empty()) return e;
+        for (size_t i = 0; i < off; i++) if ((unsigned char)hb.get()[i] != 0xAA) return "rtosc_amessage (destination not 4-byte aligned) writes in front of the destination";
+      }
     // arg-val constructor: its own needed size (brackets are not representable there)
     for (size_t cap : {(size_t)0, ref2.size() - 4, ref2.size() - 1, ref2.size(), ref2.size() + 1}) {
       std::unique_ptr<char[]> hb(new char[cap ? cap : 1]);
